@@ -57,6 +57,8 @@ def array_support(func):
 #%%
 @array_support
 def twos_complement_repr(val, nbits):
+    if isinstance(val, np.integer):
+        val = int(val)      # 1 << nbits does not fit the 64-bit integer types from nbits = 63 on
     if val < 0:
         val = (1 << nbits) + val
     else:
